@@ -557,7 +557,7 @@ class Fn:
                 ps, add = self.pat(args[1][1][0], env, m.group(1))
                 return "(match %s with Some %s => %s | None => %s end)" % (self.ex(recv, env), paren(ps), self.ex(args[1][2], dict(env, **add)),
                                                                           self.apply(self.calls["::".join(args[0][1])][0], []))
-            if name == "unwrap_or_else" and len(args) == 1 and args[0][0] == "closure" and not args[0][1] and re.match(r"Option<(.*)>$", self.ty(recv, env) or ""):
+            if name == "unwrap_or_else" and len(args) == 1 and args[0][0] == "closure" and (not args[0][1] or list(args[0][1]) == [("pwild",)]) and re.match(r"Option<(.*)>$", self.ty(recv, env) or ""):
                 v = self.fresh("v")
                 return "(match %s with Some %s => %s | None => %s end)" % (self.ex(recv, env), v, v, self.ex(args[0][2], env))
             if name == "map" and len(args) == 1 and args[0][0] == "closure" and re.match(r"Option<(.*)>$", self.ty(recv, env) or ""):
@@ -2143,6 +2143,19 @@ def functions():
         return "Definition g_root_pair_hash (a b : list Z) : list Z :=\n  %s." % text
     out.append(("root_pair_hash", "src/bin/copia/archive.rs root_pair_hash", None, t_root_pair_hash))
 
+    def t_archive_path():
+        src = read("src/bin/copia/archive.rs")
+        params, ret, body = R.find_fn(src, "archive_path", None)
+        if [n for n, _ in params] != ["pair_hash"]:
+            raise Unsupported("signature of archive_path is %s" % params)
+        spec = dict(str_literals=True, format_bytes={"": "{0}"}, format_int="dec {0}",
+                    calls={"std::env::var": ("home_var (* {0} *)", "Option<String>"), ".to_string": ("{0}", "String"),
+                           "PathBuf::from": ("{0}", "PathBuf"), ".join": ("pjoin {0} {1}", "PathBuf")})
+        fn = Fn(spec)
+        text = fn.block(body, {"pair_hash": "str"}, Ctx(val=(lambda x: x), ret=(lambda x: x), fall=None))
+        return "Definition g_archive_path (home_var : option (list Z)) (pair_hash : list Z) : list Z :=\n  %s." % text
+    out.append(("archive_path", "src/bin/copia/archive.rs archive_path", None, t_archive_path))
+
     def t_with_commit_lock():
         src = read("src/bin/copia/serve.rs")
         params, ret, body = R.find_fn(src, "with_commit_lock", None)
@@ -3088,7 +3101,7 @@ GROUPS = {
     "PushDelete": ("Model.Glob Model.Plan Model.Listing Model.ShellQuote", "plainz", ["push_delete_request"]),
     "PushCommand": ("Model.Glob Model.Plan Model.Listing Model.ShellQuote", "pushcommand", ["push_command", "pull_command", "list_command", "mkdir_list"]),
     "RemoteRun": ("Model.Glob Model.Plan Model.OneWay", "remoterun", ["run_remote"]),
-    "PairKey": ("", "pairkey", ["root_pair_hash"]),
+    "PairKey": ("", "pairkey", ["root_pair_hash", "archive_path"]),
     "Archive": ("Model.Archive", "archive", ["archive_load"]),
     "Plan": ("Model.Glob Model.Plan", False, ["needs_transfer", "glob_match", "is_excluded", "build_plan"]),
     "Protocol": ("Model.Checksum Model.Delta Model.Protocol", False, ["from_u8", "hvalidate"]),
@@ -3298,7 +3311,10 @@ def main():
         elif digest == "pairkey":
             body = (HEADER % (group, "")).replace(" .\n", ".\n") + ("\nSection WithHash.\nVariable D : Type.\nVariable Hh : list Z -> D.            (* BLAKE3 *)\n"
                      "Variable hex_of : D -> list Z.           (* its 64 hexadecimal digits *)\n"
-                     "Variable canon : list Z -> list Z.        (* std::fs::canonicalize(p), or p itself when that fails *)\n\n" + "\n".join(texts) + "End WithHash.\n")
+                     "Variable canon : list Z -> list Z.        (* std::fs::canonicalize(p), or p itself when that fails *)\n"
+                     "(* PathBuf::join on Unix: an absolute argument replaces the base; otherwise a `/` goes between unless the base is empty or already ends in one *)\n"
+                     "Definition pjoin (base x : list Z) : list Z :=\n"
+                     "  match x with 47 :: _ => x | _ => match rev base with [] => x | 47 :: _ => base ++ x | _ => base ++ [47] ++ x end end.\n\n" + "\n".join(texts) + "End WithHash.\n")
         elif digest == "hubconnect":
             body += ("\n(* the reply to the client's Hello, and what connect does in order *)\nInductive hreply := RHelloV (version : Z) | ROther.\n"
                      "Inductive hreq := SHello (version : Z).\n"
